@@ -46,7 +46,7 @@ def real_recover(case, sig_rs=None):
     dec = E.decoder(case["dec"])
     H = E.HASHES[case.get("hash", "sha1")]
     if kind == "recover_digest":
-        vks = VerifyingKey.from_public_key_recovery_with_digest(sig, bytes.fromhex(case["digest"]), cv, hashfunc=H, sigdecode=dec,
+        vks = VerifyingKey.from_public_key_recovery_with_digest(sig, E.digest_obj(case), cv, hashfunc=H, sigdecode=dec,
                                                                allow_truncate=case["allow_truncate"])
     else:
         vks = VerifyingKey.from_public_key_recovery(sig, bytes.fromhex(case["data"]), cv, hashfunc=H, sigdecode=dec,
@@ -281,6 +281,8 @@ def all_cases(ctx):
         lvl = "small" if cv.name in small else "big"
         honest += honest_cases(rng, E.curve_spec(cv), (2 if lvl == "small" else 1) if q else (30 if lvl == "small" else 14), lvl)
         forged += forged_cases(rng, E.curve_spec(cv), 1 if q else (20 if lvl == "small" else 10), lvl)
+    # the digest wrapper on non-bytes bytes-like digests
+    honest += E.container_variants(rng, [x for x in honest if x[1].get("kind") == "recover_digest"], 0.3)
     ctx._c14_cases = (honest, forged)
     return ctx._c14_cases
 
@@ -303,7 +305,7 @@ def correspond(ctx):
                 continue
             cv, cp, t = E.resolve_curve(case["curve"])
             line, th = corr_line(case)
-            c[case["kind"]].add(line, th, tag, 5e-5 if t is not None else E.linecost(cv, True, 2))
+            c[case["kind"]].add(line, th, tag, 5e-5 if t is not None else E.linecost(cv, True, 2), key=case.get("container"))
         # toy curves: the full product of small (r, s, e) through recover_public_keys
         for t in [x for x in E.get_fixed_toys() if x.n <= 11][:2] + E.pick_toys(rng, 1, nmax=11):
             n = t.n
